@@ -21,6 +21,18 @@ impl<A: Ord> Edges<A> {
             assert forall|x: A| v0.contains(x) <==> #[trigger] edges@.contains(x) by { lemma_perm_contains_iff(v0, v1, x); }
         }
 //@end
+
+//@extract file=src/histogram/bins.rs impl=From:Edges fn=from nth=1 id=Edges::from_array1 tags=C13,C20
+//@sig
+    fn from_array1(edges: Lane<A>) -> (r: Self)
+    where
+        A: Clone,
+//@spec
+        requires lawful_ord::<A>(), eq_is_ord_equal::<A>(), lawful_clone::<A>(),
+        ensures
+            edges_wf(r), // [C13]
+            forall|x: A| edges@.contains(x) <==> #[trigger] r.edges@.contains(x), // [C13,C20] exactly the distinct values of the logical array, whatever its layout
+//@end
 }
 //@endif
 
